@@ -42,7 +42,23 @@ type vMon struct {
 	inClose     bool
 	nDeliveries int
 	peakLive    int // max number of undelivered instances seen during the current call
+	symClock    bool
+	toSec       int64 // timeout, seconds part (floor) and nanoseconds part in [0,1e9)
+	toNsec      int64
+	clock0      int // number of clock readings consumed before the current call
 }
+
+// expiry returns created+timeout of an instance as (sec, nsec), without multiplication.
+func (m *vMon) expiry(in *vInst) (int64, int64) {
+	cs, cn := vClockSec(in.createdK), vClockNsec(in.createdK)
+	n := cn + m.toNsec
+	carry := n >= 1000000000
+	return cs + m.toSec + int64(vIf(carry, 1, 0)), n - int64(vIf(carry, 1000000000, 0))
+}
+
+// before reports (as, an) < (bs, bn).
+func vBefore(as, an, bs, bn int64) bool { return vOr(as < bs, vAnd(as == bs, an < bn)) }
+
 
 func (m *vMon) ord(s uint32) uint32 { return s - m.base }
 
@@ -74,7 +90,7 @@ func (m *vMon) notePush(msg *auparse.AuditMessage, typ uint16, seq uint32) {
 		return
 	}
 	if cur == nil {
-		cur = &vInst{seq: seq, firstPush: m.call}
+		cur = &vInst{seq: seq, firstPush: m.call, createdK: m.clock0}
 		m.insts = append(m.insts, cur)
 	}
 	cur.msgs = append(cur.msgs, msg)
@@ -137,6 +153,17 @@ func (m *vMon) ReassemblyComplete(g []*auparse.AuditMessage) {
 	if !m.inClose && m.timeoutInf {
 		vAssert(vOr(in.complete, m.peakLive > m.maxInFlight), "C10/delivered-without-cause")
 	}
+	// C19: never delivered on account of time before the timeout has elapsed
+	if !m.inClose && m.symClock {
+		es, en := m.expiry(in)
+		forTime := vAnd(!in.complete, !(m.peakLive > m.maxInFlight))
+		nowK := vClockCount() - 1
+		if nowK >= 0 {
+			vAssert(vOr(!forTime, !vBefore(vClockSec(nowK), vClockNsec(nowK), es, en)), "C19/flushed-before-timeout")
+		} else {
+			vAssert(!forTime, "C19/flushed-before-timeout")
+		}
+	}
 	in.delivered = true
 	in.deliveredAt = m.call
 	m.nDeliveries++
@@ -171,7 +198,25 @@ func (m *vMon) afterCall(kind int) {
 			vAssert(vOr(!isHead, !h.complete), "C10/complete-event-left-at-head")
 		}
 	}
+	// C19: a stale head is flushed by the first call made after its expiry
+	if m.symClock && (kind == vOpPush || kind == vOpMaintain) && vClockCount() > m.clock0 {
+		fs, fn := vClockSec(m.clock0), vClockNsec(m.clock0) // first reading consumed by this call
+		for _, h := range lv {
+			if h.createdK >= m.clock0 && h.firstPush == m.call {
+				continue // created during this very call
+			}
+			isHead := true
+			for _, o := range lv {
+				if o != h {
+					isHead = vAnd(isHead, !(m.ord(o.seq) < m.ord(h.seq)))
+				}
+			}
+			es, en := m.expiry(h)
+			vAssert(vOr(!isHead, !vBefore(es, en, fs, fn)), "C19/stale-head-not-flushed")
+		}
+	}
 	m.peakLive = len(lv)
+	m.clock0 = vClockCount()
 	m.call++
 }
 
@@ -185,7 +230,23 @@ func VH_Reassembler() {
 
 	m := &vMon{maxInFlight: maxInFlight, timeoutInf: true}
 	m.base = vU32("base")
-	r, err := NewReassembler(maxInFlight, 1000000*time.Hour, m)
+	timeout := 1000000 * time.Hour
+	switch vParam("timeout_mode", 0) {
+	case 1:
+		timeout, m.toSec, m.toNsec = -1*time.Second, -1, 0
+	case 2:
+		timeout, m.toSec, m.toNsec = 0, 0, 0
+	case 3:
+		timeout, m.toSec, m.toNsec = 5*time.Millisecond, 0, 5000000
+	case 4:
+		timeout, m.toSec, m.toNsec = 2*time.Second, 2, 0
+	case 5:
+		timeout, m.toSec, m.toNsec = -1500*time.Millisecond, -2, 500000000
+	}
+	if vParam("timeout_mode", 0) != 0 {
+		m.symClock, m.timeoutInf = true, false
+	}
+	r, err := NewReassembler(maxInFlight, timeout, m)
 	vAssert(err == nil && r != nil, "C19/new-reassembler-failed")
 	if err != nil {
 		return
